@@ -2,7 +2,7 @@
 # boolean selectors; the first K tokens are fixed per generated copy.
 from vlib.stubs import apply_common
 apply_common()
-from vlib.sel import sel
+from vlib.sel import sel, concrete
 import formulas
 from formulas.errors import FormulaError
 
@@ -14,6 +14,11 @@ P = formulas.Parser()
 
 
 def outcome(text):
+    # the text is concrete on every explored path: run the parser natively
+    return concrete(_outcome, text)
+
+
+def _outcome(text):
     try:
         r = P.ast(text)
     except FormulaError:
